@@ -30,6 +30,13 @@ pub struct D2 {
     #[darling(multiple)]
     pub m: Vec<Opq>,
 }
+// a name both selected and listed for forwarding: selection wins, the attribute is consumed and not forwarded
+#[derive(Debug, FromDeriveInput)]
+#[darling(attributes(my, other), forward_attrs(other, doc))]
+pub struct D3 {
+    pub attrs: Vec<Attribute>,
+    pub a: Option<Opq>,
+}
 #[derive(Debug, FromDeriveInput)]
 #[darling(attributes(my))]
 pub struct D0 {
@@ -109,6 +116,7 @@ pub struct V2 {
 pub fn entry_D0(di: &DeriveInput) -> R<D0> { fl(D0::from_derive_input(di)) }
 pub fn entry_D1(di: &DeriveInput) -> R<D1> { fl(D1::from_derive_input(di)) }
 pub fn entry_D2(di: &DeriveInput) -> R<D2> { fl(D2::from_derive_input(di)) }
+pub fn entry_D3(di: &DeriveInput) -> R<D3> { fl(D3::from_derive_input(di)) }
 pub fn entry_D4(di: &DeriveInput) -> R<D4> { fl(D4::from_derive_input(di)) }
 pub fn entry_D5(di: &DeriveInput) -> R<D5> { fl(D5::from_derive_input(di)) }
 pub fn entry_D6(di: &DeriveInput) -> R<D6> { fl(D6::from_derive_input(di)) }
